@@ -67,7 +67,13 @@ ASSUMPTIONS = [
     "(64*eps*sum of absolute term magnitudes), integers/labels exactly",
     "sorting optimiser: optimality is asserted only for unconstrained separable single-objective problems "
     "(the property's wording); brute force enumerates all C(n,k) subsets, n <= 12, k <= 6",
-    "hill-climbers: neighbourhood = replace one position by one element of the decision space not in the solution; "
+    "hill-climbers: neighbourhood = replace the member at one position of the returned decision VECTOR by one element of the "
+    "decision space not in the solution, all other positions kept (the implementation's exchange; for order-independent "
+    "problems this is the usual 1-exchange of sets).  evalfn receives a decision vector, so problems whose value depends on "
+    "the position of a member (member x[i] fills ordered slot i: cost table slot[e][i]; inequality counting flagged members "
+    "at masked positions only) are part of 'any objective data' and are generated for 2/5 of the table problems of `exact` "
+    "(1/6 elsewhere); the full re-scan of that neighbourhood is the oracle for them too, while the brute-force-optimum "
+    "clause (a statement about separable set functions) is not applied to them; "
     "order = (sum of violations, sum of objectives) lexicographic, strict improvement, exact float comparison on "
     "evaluations performed in the same element order the optimiser used",
     "'any objective data': every objective coefficient of a generated problem is multiplied by a unit 10**e, e in "
@@ -127,8 +133,10 @@ class _NoLatent:
 
 
 class HSubsetTable(_NoLatent, SubsetProblem):
-    """obj_j(S) = wt_j * ( sum_{e in S} vals[e][j]  +  q * dir_j * (sum_{e in S} u[e])**2 )
-    ineq(S) = w * ( max(0, #{e in S: flag[e]} - cap) + base );  eq(S) = w * ( (sum_{e in S} t[e]) mod m )"""
+    """obj_j(x) = wt_j * ( sum_{e in x} vals[e][j]  +  q * dir_j * (sum_{e in x} u[e])**2  +  sum_i slot[x[i]][i] )
+    ineq(x) = w * ( max(0, #{i: flag[x[i]] and posmask[i]} - cap) + base );  eq(x) = w * ( (sum_{e in x} t[e]) mod m )
+    The optional slot / posmask parts make the value depend on the POSITION of a member in the decision vector
+    (position i = ordered slot i filled by candidate x[i]); without them the problem is a set function."""
 
     def __init__(self, spec):
         self.spec = spec
@@ -140,6 +148,9 @@ class HSubsetTable(_NoLatent, SubsetProblem):
         self._u = numpy.array(spec["u"], dtype=float)
         self._qdir = numpy.array([1.0 if j % 2 == 0 else -1.0 for j in range(spec["nobj"])])
         iq, eq = spec["ineq"], spec["eq"]
+        # slot[e][i]: cost of candidate e sitting at position i of the decision vector (None = order-independent problem)
+        self._slot = (numpy.array(spec["slot"], dtype=float).reshape(len(labels), spec["k"]) * sc) if spec.get("slot") else None
+        self._posmask = numpy.array(iq["posmask"], dtype=float) if (iq and iq.get("posmask")) else None
         self._flags = numpy.array(iq["flags"], dtype=float) if iq else numpy.zeros(len(labels))
         self._t = numpy.array(eq["t"], dtype="int64") if eq else numpy.zeros(len(labels), dtype="int64")
         self.nevals = 0
@@ -158,10 +169,13 @@ class HSubsetTable(_NoLatent, SubsetProblem):
         if self._q != 0.0:
             s = self._u[idx].sum()
             lat = lat + self._q * s * s * self._qdir
+        if self._slot is not None:
+            lat = lat + self._slot[idx, numpy.arange(len(idx))].sum()
         obj = self.obj_wt * lat
         iq, eq = self.spec["ineq"], self.spec["eq"]
         if iq:
-            slack = float(self._flags[idx].sum() - iq["cap"])
+            fl = self._flags[idx] if self._posmask is None else self._flags[idx] * self._posmask[:len(idx)]
+            slack = float(fl.sum() - iq["cap"])
             g = self.ineqcv_wt * numpy.array([(slack if iq.get("signed") else max(0.0, slack)) + iq["base"]], dtype=float)
         else:
             g = numpy.zeros(0)
@@ -172,11 +186,18 @@ class HSubsetTable(_NoLatent, SubsetProblem):
         return obj, g, h
 
     def data_arrays(self):
-        return {"_vals": self._vals, "_u": self._u, "_flags": self._flags, "_t": self._t}
+        d = {"_vals": self._vals, "_u": self._u, "_flags": self._flags, "_t": self._t}
+        if self._slot is not None:
+            d["_slot"] = self._slot
+        if self._posmask is not None:
+            d["_posmask"] = self._posmask
+        return d
 
     def term_scale(self, x):
         idx = [self._pos[int(e)] for e in numpy.asarray(x).ravel() if int(e) in self._pos]
         s = numpy.abs(self._vals[idx, :]).sum(0) + abs(self._q) * numpy.abs(self._u[idx]).sum() ** 2
+        if self._slot is not None:
+            s = s + numpy.abs(self._slot[idx, :]).sum()
         return numpy.abs(self.obj_wt) * s
 
 
@@ -492,6 +513,9 @@ NEAR_TIE_STEP = 2.0 ** -36          # ~1.5e-11: candidates that differ in the 11
 EW_FALSE = [False, False, True, False, True, False, True, False]
 CONS = ["none", "none", "none", "ineq", "ineq", "eq", "both"]
 CONS_MATRIX = ["ineq", "both", "none", "both", "eq", "both", "ineq"]    # population-wise evaluation stacks F, G and H separately
+# position-dependent problems (member x[i] fills ordered slot i): share of the table problems, per sub-check
+SLOT_EXACT = [False, True, False, True, False]
+SLOT_GA = [False, False, True, False, False, False]
 
 
 def _numbers(draw, count):
@@ -507,7 +531,7 @@ def _numbers(draw, count):
 
 
 @st.composite
-def subset_spec(draw, nobj, nmax=12, kmax=6, infeasible_ok=False, matrix_eval=False, signed_ok=False):
+def subset_spec(draw, nobj, nmax=12, kmax=6, infeasible_ok=False, matrix_eval=False, signed_ok=False, slot=SLOT_GA):
     kind = draw(st.sampled_from(["table", "table", "table", "ebv"]))
     shape = draw(st.sampled_from(["typical"] * 7 + ["any", "any", "full"]))
     if shape == "typical":
@@ -531,6 +555,8 @@ def subset_spec(draw, nobj, nmax=12, kmax=6, infeasible_ok=False, matrix_eval=Fa
         spec["vals"] = _numbers(draw, n * nobj)
         spec["q"] = draw(st.sampled_from([0.0, 0.0, 0.0, 1.0, -1.0, 0.5]))
         spec["u"] = draw(st.lists(st.integers(-2, 2), min_size=n, max_size=n))
+        # evalfn receives a decision VECTOR: a cost per (candidate, position) makes its value depend on where a member sits
+        spec["slot"] = _numbers(draw, n * k) if draw(st.sampled_from(slot)) else None
     else:
         nrow = n + draw(st.integers(0, 3))
         spec["labels"] = list(draw(st.permutations(list(range(nrow)))))[:n]
@@ -551,6 +577,9 @@ def subset_spec(draw, nobj, nmax=12, kmax=6, infeasible_ok=False, matrix_eval=Fa
                         "cap": draw(st.integers(0, k)), "base": base, "wt": draw(st.sampled_from(CVWT)),
                         # signed slack (negative = satisfied with room to spare) only where pymoo's G <= 0 rule decides feasibility
                         "signed": bool(signed_ok and draw(st.sampled_from([False, True, False])))}
+        if kind == "table" and draw(st.sampled_from(slot)):
+            # flagged members count only at the masked positions: a position-dependent constraint
+            spec["ineq"]["posmask"] = draw(st.lists(st.integers(0, 1), min_size=k, max_size=k))
     if cons in ("eq", "both"):
         spec["eq"] = {"t": draw(st.lists(st.integers(0, 3), min_size=n, max_size=n)), "m": draw(st.sampled_from([2, 2, 3])),
                       "wt": draw(st.sampled_from(CVWT))}
@@ -560,7 +589,7 @@ def subset_spec(draw, nobj, nmax=12, kmax=6, infeasible_ok=False, matrix_eval=Fa
 @st.composite
 def exact_case(draw):
     algo = draw(st.sampled_from(["sorting", "sd", "sd", "ssd"]))
-    spec = draw(subset_spec(1, infeasible_ok=True))
+    spec = draw(subset_spec(1, infeasible_ok=True, slot=SLOT_EXACT))
     rng = {"type": draw(st.sampled_from(["RandomState", "Generator", "global"])), "seed": draw(st.integers(0, 2 ** 31 - 1))}
     return {"algo": algo, "spec": spec, "rng": rng}
 
@@ -673,6 +702,8 @@ def _spec_labels(ctx, spec, nobj_vals):
     ctx.label("k==1", k == 1)
     ctx.label("labels_not_arange", list(spec["labels"]) != list(range(n)))
     ctx.label("nonseparable", spec["kind"] == "table" and spec["q"] != 0.0)
+    ctx.label("position_dependent_objective", bool(spec.get("slot")))
+    ctx.label("position_dependent_constraint", bool(spec["ineq"] and spec["ineq"].get("posmask")))
     _scale_labels(ctx, spec)
     return ctx.nontrivial(n > k >= 2 and nobj_vals >= 3)
 
@@ -689,7 +720,11 @@ def check_exact(case, ctx):
     sv = sorted(set(float(s[0]) for s in singles))
     ctx.label("distinct_single_values_closer_than_1e-8", any(b - a < 1e-8 for a, b in zip(sv, sv[1:])))
     constrained = bool(spec["ineq"] or spec["eq"])
-    separable = spec["kind"] == "ebv" or spec["q"] == 0.0
+    # "separable" in the property's sense: the value is a sum of per-member terms of the selected SET.  A position-
+    # dependent objective is not a function of the set at all (the same members in another order score differently), so
+    # neither the sorting rule nor a brute force over C(n,k) sets says anything about it: clause not applied.
+    position_dependent = bool(spec.get("slot") or (spec["ineq"] and spec["ineq"].get("posmask")))
+    separable = (spec["kind"] == "ebv" or spec["q"] == 0.0) and not spec.get("slot")
 
     dup_start = False
     if algo == "sorting":
@@ -751,6 +786,8 @@ def check_exact(case, ctx):
                              "%s returned %s (cv %r, score %r) but replacing position %d by %d gives cv %r, score %r" % (
                                  type(opt).__name__, x.tolist(), cvx, score, i, e, cvy, sy))
         ctx.label("local_optimality_scanned")
+        ctx.label("local_optimality_scanned_position_dependent", position_dependent)
+        ctx.label("local_optimality_scanned_position_dependent_n==k+1", position_dependent and n == k + 1)
         if "gbest_score" in misc:
             ctx.check(float(misc["gbest_score"]) == score and float(misc["gbest_cv"]) == cvx, "hillclimber.miscout_truthful",
                       lambda: "miscout %r vs fresh score %r cv %r" % (misc, score, cvx))
@@ -1070,11 +1107,13 @@ def check_operators(case, ctx):
 SUBCHECKS = [
     SubCheck("exact", check_exact, exact_case(), quick=350, thorough=4000, shards_quick=4,
              rule="generated (sorting | steepest-descent | sorting+steepest-descent) x (harness table problem separable/"
-                  "non-separable | real EBV subset problem) x objective unit 1e-12..1e15 / near-tied data x (none|ineq|eq|both constraints) x rng kind/seed; "
+                  "non-separable, order-independent or position-dependent (slot costs / position-masked constraint) | real EBV subset problem) x objective unit 1e-12..1e15 / near-tied data x (none|ineq|eq|both constraints) x rng kind/seed; "
                   "non-trivial = n > k >= 2 and >= 3 distinct single-member objective values; distinct by sha1 of the case",
              required_labels=("bruteforce_compared", "local_optimality_scanned", "constrained", "nonseparable",
                               "labels_not_arange", "sd_start_with_replacement_has_duplicate", "objective_unit<=1e-6",
-                              "objective_unit>=1e4", "distinct_single_values_closer_than_1e-8")),
+                              "objective_unit>=1e4", "distinct_single_values_closer_than_1e-8",
+                              "position_dependent_objective", "position_dependent_constraint",
+                              "local_optimality_scanned_position_dependent")),
     SubCheck("ga_subset", check_ga_subset, ga_subset_case(), quick=100, thorough=1500, shards_quick=6,
              rule="generated 7 pymoo-backed subset optimiser classes x problems as in 'exact' (1-3 objectives) x ngen 1-6 x "
                   "pop_size 4-16 x element-wise / population-wise evaluation; non-trivial = n > k >= 2 and >= 3 distinct single-member objective vectors",
